@@ -55,7 +55,7 @@ def parseAspEnts : Nat → List String → List AspEnt × List String
 
 /-- `<commP> <commOpt> <ncomm> c… <anyPeer> <nbrOpt> <npeers> p… <medP> <med> <lpP> <lp> <addP> <add>
      <route> <lenP> <lenOp> <len> <pfxP> <pfxOpt> <npfx> (base plen lo hi)… <aspP> <aspOpt> <nasp>
-     (mode asn)…` repeated -/
+     (mode asn)… <medEqP> <medEq> <lpEqP> <lpEq>` repeated -/
 def parseStmts : Nat → List String → List Stmt
   | 0, _ => []
   | n + 1, ts =>
@@ -70,13 +70,17 @@ def parseStmts : Nat → List String → List Stmt
           let (pes, rest) := parsePfxEnts (nat! npfx) rest
           match rest with
           | aspP :: aspOpt :: nasp :: rest =>
-            let (aes, rest') := parseAspEnts (nat! nasp) rest
-            { commSet := if b! commP then some comms else none, commOpt := nat! commOpt,
-              anyPeer := b! anyP, nbrOpt := nat! nbrOpt, peers := peers, setMed := optNat mp med,
-              setLp := optNat lpp lp, addComm := optNat ap add, route := nat! route,
-              aspLen := if b! lenP then some (nat! lenOp, nat! len) else none,
-              pfxSet := if b! pfxP then some pes else none, pfxOpt := nat! pfxOpt,
-              aspSet := if b! aspP then some aes else none, aspOpt := nat! aspOpt } :: parseStmts n rest'
+            let (aes, rest) := parseAspEnts (nat! nasp) rest
+            match rest with
+            | meP :: meV :: leP :: leV :: rest' =>
+              { commSet := if b! commP then some comms else none, commOpt := nat! commOpt,
+                anyPeer := b! anyP, nbrOpt := nat! nbrOpt, peers := peers, setMed := optNat mp med,
+                setLp := optNat lpp lp, addComm := optNat ap add, route := nat! route,
+                aspLen := if b! lenP then some (nat! lenOp, nat! len) else none,
+                pfxSet := if b! pfxP then some pes else none, pfxOpt := nat! pfxOpt,
+                aspSet := if b! aspP then some aes else none, aspOpt := nat! aspOpt,
+                medEq := optNat meP meV, lpEq := optNat leP leV } :: parseStmts n rest'
+            | _ => []
           | _ => []
         | _ => []
       | _ => []
@@ -139,6 +143,12 @@ def step (s : S) (ts : List String) : S × List String :=
   | ["sent", idx] =>
     match s.peer? (nat! idx) with
     | some ps => (s, ["sent" ++ showSent ps.sent])
+    | none => (s, ["bad-op"])
+  | ["adjoutf", idx] =>
+    match s.peer? (nat! idx) with
+    | some ps =>
+      let l := (adjOutFiltered s ps.cfg).toArray.qsort (fun a b => a.1 < b.1) |>.toList
+      (s, ["adjoutf" ++ String.join (l.map (fun e => s!" {e.1}=" ++ (if e.2 then "f" else "a")))])
     | none => (s, ["bad-op"])
   | ["adjin", idx] =>
     match s.peer? (nat! idx) with
